@@ -212,6 +212,11 @@ func assertReply(p Post, rep Reply) string {
 	if p.Status != 0 && p.Status != rep.Status {
 		return fmt.Sprintf("status %d, expected %d", rep.Status, p.Status)
 	}
+	if p.Size != nil {
+		if holds, settled := SizeHolds(*p.Size, len(rep.Body)); settled && !holds {
+			return fmt.Sprintf("size of the body is %d, expected %s %d", len(rep.Body), p.Size.Op, p.Size.Val)
+		}
+	}
 	return ""
 }
 
